@@ -96,6 +96,19 @@ func genC08(r *Run) {
 				out[j] ^= 0xa5
 			}
 			evals++
+			if d := twoOutputs(m.ToBytes); d != "" {
+				r.Fail("v6-outputs-share-memory", trunc(hx(w), 3000), d)
+			}
+			if mm, ok := m.(*dhcpv6.Message); ok { // an earlier output must survive a later edit + encoding
+				o1 := mm.ToBytes()
+				k1 := append([]byte{}, o1...)
+				mm.TransactionID[0] ^= 0xff
+				_ = mm.ToBytes()
+				mm.TransactionID[0] ^= 0xff
+				if !bytes.Equal(o1, k1) {
+					r.Fail("v6-output-rewritten-by-later-encoding", trunc(hx(w), 3000), "a returned encoding changed when the message was edited and encoded again")
+				}
+			}
 			if out2 := m.ToBytes(); !bytes.Equal(out2, ref) {
 				r.Fail("v6-output-aliased", trunc(hx(w), 3000), "scribbling over ToBytes() output changed a later encoding")
 			}
@@ -189,6 +202,22 @@ func genC08(r *Run) {
 			if out2 := p.ToBytes(); !bytes.Equal(out2, ref) {
 				r.Fail("v4-output-aliased", trunc(hx(w), 3000), "")
 			}
+			if d := twoOutputs(p.ToBytes); d != "" {
+				r.Fail("v4-outputs-share-memory", trunc(hx(w), 3000), d)
+			}
+			if d := twoOutputs(p.Options.ToBytes); d != "" {
+				r.Fail("v4-options-outputs-share-memory", trunc(hx(w), 3000), d)
+			}
+			{
+				o1 := p.ToBytes()
+				k1 := append([]byte{}, o1...)
+				p.TransactionID[0] ^= 0xff
+				_ = p.ToBytes()
+				p.TransactionID[0] ^= 0xff
+				if !bytes.Equal(o1, k1) {
+					r.Fail("v4-output-rewritten-by-later-encoding", trunc(hx(w), 3000), "")
+				}
+			}
 			// Options.ToBytes too
 			o1 := p.Options.ToBytes()
 			ref1 := append([]byte{}, o1...)
@@ -236,4 +265,29 @@ func genC08(r *Run) {
 		}
 	}
 	r.Extra["oracle_evaluations"] = evals
+}
+
+// twoOutputs: two encodings of the same value held at the same time must not share memory
+func twoOutputs(enc func() []byte) string {
+	a := enc()
+	keep := append([]byte{}, a...)
+	b := enc()
+	if !bytes.Equal(b, keep) {
+		return "two consecutive encodings differ"
+	}
+	for i := range a {
+		a[i] ^= 0xff
+	}
+	if !bytes.Equal(b, keep) {
+		return "overwriting the first of two encodings changed the second"
+	}
+	for i := range b {
+		b[i] ^= 0x3c
+	}
+	for i := range a {
+		if a[i] != keep[i]^0xff {
+			return "overwriting the second of two encodings changed the first"
+		}
+	}
+	return ""
 }
